@@ -122,9 +122,9 @@ Section Solver.
   Notation merge_fwd := (merge_information_forward_gen T t_eqb univ null union inter single f).
   Notation loop_fwd := (forward_analyis_loop_gen T t_eqb univ null union inter single f).
   Notation analysis_fwd := (forward_analyis_gen T t_eqb univ null union inter single f).
-  Notation merge_bwd := (merge_information_backward_gen T t_eqb null union inter f).
-  Notation loop_bwd := (backward_analysis_loop_gen T t_eqb null union inter f).
-  Notation analysis_bwd := (backward_analysis_gen T t_eqb null union inter f).
+  Notation merge_bwd := (merge_information_backward_gen T t_eqb univ null union inter f).
+  Notation loop_bwd := (backward_analysis_loop_gen T t_eqb univ null union inter f).
+  Notation analysis_bwd := (backward_analysis_gen T t_eqb univ null union inter f).
 
   (* ---------------------------------------------------------------- dangling block references raise *)
   Lemma calculate_reachin_gen_dangling k n (st : state) :
@@ -174,7 +174,7 @@ Section Solver.
           (ret (kset (fst st) key (dict_set T tmp6 block new_reachout), true))))
           (ret (fst st, snd st)))))).
   Notation fkey_step := (key_step (call_calculate_reachin T univ null union inter single f)).
-  Notation bkey_step := (key_step (call_calculate_livein T null union inter f)).
+  Notation bkey_step := (key_step (call_calculate_livein T univ null union inter f)).
 
   Lemma merge_fwd_unfold keys block gr bcs :
     merge_fwd keys block gr bcs =
@@ -216,7 +216,7 @@ Section Solver.
 
   Lemma call_livein_eq key b xb st :
     main_name_fresh f -> fblock f b = Some xb ->
-    call_calculate_livein T null union inter f key b st = livein key st xb.
+    call_calculate_livein T univ null union inter f key b st = livein key st xb.
   Proof. intros Hm Hb. unfold call_calculate_livein. apply calculate_livein_gen_eq; assumption. Qed.
 
   Theorem merge_information_forward_gen_single : forall key block gr bcs st,
@@ -610,7 +610,7 @@ Section Solver.
       forall b, In b (ids f) ->
         leaf_block_global_gen f b = Some true \/
         exists li c old,
-          call_calculate_livein T null union inter f key b lo = Some li /\
+          call_calculate_livein T univ null union inter f key b lo = Some li /\
           lookup (ddict_get T bcs key) b = Some c /\ lookup lo b = Some old /\
           t_eqb (inter key li c) old = true.
   Proof.
@@ -677,7 +677,7 @@ Section Solve.
     bind (forward_analyis_gen T t_eqb univ null union inter single f fuel keys (forward_worklist f) bcs) (fun r =>
       match r with
       | None => ret None
-      | Some bcs1 => backward_analysis_gen T t_eqb null union inter f fuel keys (backward_worklist f) bcs1
+      | Some bcs1 => backward_analysis_gen T t_eqb univ null union inter f fuel keys (backward_worklist f) bcs1
       end).
 
   Theorem solve_gen_eq : forall key fuel (bc : state T),
@@ -698,7 +698,7 @@ Section Solve.
     rewrite Hs.
     assert (Hd2 : ddict_get T [(key, ro)] key = ro).
     { unfold ddict_get. cbn. rewrite String.eqb_refl. reflexivity. }
-    rewrite (backward_analysis_gen_eq T t_eqb null union inter f key _ fuel _ Hm Hnd).
+    rewrite (backward_analysis_gen_eq T t_eqb univ null union inter f key _ fuel _ Hm Hnd).
     - rewrite Hd2. fold (bwd_st0 T (null key) f ro).
       match goal with |- context [omap _ ?X] => destruct X as [lo| |] end; cbn [omap erase]; try reflexivity.
       cbn. rewrite String.eqb_refl. reflexivity.
@@ -715,7 +715,7 @@ Definition d_prog : prog := [mkIns 1 IReturn].
 Definition d_func : func := mkFunc d_prog [mkBlock 0 [0] [] []] 0 [0] [] [] None.
 Theorem backward_init_model_default :
   exists (f : func) (bcs : gdict nat),
-    backward_analysis_gen nat Nat.eqb (fun _ => 0) (fun _ => Nat.max) (fun _ => Nat.min) f 1 [""] [] bcs = None /\
+    backward_analysis_gen nat Nat.eqb (fun _ => 9) (fun _ => 0) (fun _ => Nat.max) (fun _ => Nat.min) f 1 [""] [] bcs = None /\
     backward nat Nat.eqb 0 Nat.max Nat.min f (lookup nat (ddict_get nat bcs "")) 1 []
       (bwd_st0 nat 0 f (ddict_get nat bcs "")) = Done [(0, 0)].
 Proof. exists d_func, []. vm_compute. split; reflexivity. Qed.
